@@ -1,4 +1,5 @@
 import SluProofs.Lemmas.Solve
+import SluProofs.Lemmas.SolveT
 import SluProofs.Props.C02
 import SluProofs.Props.C04
 /-
@@ -12,9 +13,14 @@ number of right-hand sides.  The floating-point statement of C01 (componentwise 
 returned factors) is then checked on the implementation's outputs in exact rationals on every run;
 its rounding constants are cited, not proved (see level_note).
 
-Row storage (SLU_NR): the driver factors Aᵀ and calls the transposed solve `gstrsT`; the
-corresponding theorem is not proved here (goal kept below), that orientation is tied by the
-per-run residual check only.
+Row storage (SLU_NR, SRC/dgssv.c:187-196, 225-229): the arrays of a row-stored A are those of Aᵀ in
+column storage; the driver factors that matrix and calls the transposed solve.  This orientation is
+proved as well: `gstrsT_solves` (Lemmas/SolveT.lean) shows that the modelled TRANS / CONJ solve
+`gstrsT f` satisfies `Σ_i f(A'(i,c)) x_i = b_c` for every ring homomorphism `f`, every column
+permutation, every right-hand side and every n; `gssv_solves_row_storage` below is the driver-level
+statement for `gssvGlueNR` (`info = 0` ⇒ every equation of `A * X_r = B_r` holds, A row-stored), and
+`gstrsT_solves_conj` is the CONJ instance over the Gaussian rationals (`Aᴴ x = b`, conjugation
+`zz_conj` being a ring homomorphism of `Cx Rat`).
 -/
 namespace Slu.LU
 open Slu Finset
@@ -58,13 +64,112 @@ theorem gssv_columns_independent (P : Params K Rat) (permC : Array Nat) (B B' : 
   unfold gssvGlue
   simp [h, List.getD, hr, hr', hsame]
 
-/- goal (not proved): the transposed solve used for row storage
-theorem gstrsT_solves_goal … : Σ_r A(r, i) x_r = b_i  for  x = gstrsT false m piv L U permC b
--/
+/-! ### Row storage (SLU_NR): the transposed solve -/
+
+/-- the simple driver on a row-stored matrix (SRC/dgssv.c:187-196, 225-229): the arrays of a SLU_NR
+matrix are those of Aᵀ in column storage; the driver factors that matrix (`P.col j` = column `j` of
+`Aᵀ*Pc`, a row of A) and solves with `trans = TRANS`, only when `info = 0` -/
+def gssvGlueNR (P : Params K Rat) (permC : Array Nat) (B : List (Vec K)) : Nat × List (Vec K) :=
+  let st := luFactor P false
+  if st.info ≠ 0 then (st.info, B) else (0, B.map (gstrsT id st.piv st.L st.U permC))
+
+/-- **C01 (row storage).** `info = 0` ⇒ `A * X_r = B_r` for every right-hand side of a row-stored
+square A: row `c` of A is column `c` of Aᵀ, i.e. column `permC[c]` of the factored matrix `Aᵀ*Pc`, so
+equation `c` reads `Σ_i (P.col permC[c])(i) * X_r(i) = B_r(c)`.  Every returned column has length n. -/
+theorem gssv_solves_row_storage (laws : MagLaws K) (P : Params K Rat) (hP : Legal P) (hsq : P.m = P.n)
+    (permC : Array Nat)
+    (hperm : ((List.range P.n).map fun c => permC.getD c 0).Perm (List.range P.n))
+    (B : List (Vec K))
+    (h : (gssvGlueNR P permC B).1 = 0) :
+    (gssvGlueNR P permC B).2.length = B.length ∧
+    ∀ r (hr : r < B.length),
+      ((gssvGlueNR P permC B).2.getD r #[]).size = P.n ∧
+      ∀ c < P.n,
+        ∑ i ∈ range P.m, (P.col (permC.getD c 0)).get i * (((gssvGlueNR P permC B).2.getD r #[]).get i) = (B[r]).get c := by
+  unfold gssvGlueNR at h ⊢
+  by_cases hz : (luFactor P false).info ≠ 0
+  · simp [hz] at h
+  · have h0 : (luFactor P false).info = 0 := by simpa using hz
+    simp only [hz, if_false, List.length_map, true_and]
+    intro r hr
+    have inv : Inv P (luFactor P false) P.n := by
+      rw [luFactor_eq_run] at h0 ⊢
+      exact run_inv laws P (le_of_lt hP.u_pos) hP.u_le_one hP.col_size false P.n h0
+    refine ⟨?_, ?_⟩
+    · simp [List.getD, hr, gstrsT_size, inv.sizes.1]
+    · intro c hc
+      have := gstrsT_solves (RingHom.id K) P (luFactor P false) hsq inv permC hperm (B[r]) c hc
+      simpa [List.getD, hr] using this
+
+/-- **C01 (row storage: failure leaves B alone).** -/
+theorem gssv_row_storage_singular_B_untouched (P : Params K Rat) (permC : Array Nat) (B : List (Vec K))
+    (h : (gssvGlueNR P permC B).1 ≠ 0) : (gssvGlueNR P permC B).2 = B := by
+  unfold gssvGlueNR at h ⊢
+  by_cases hz : (luFactor P false).info ≠ 0
+  · simp [hz]
+  · simp [hz] at h
+
+/-! ### CONJ: the conjugate-transposed solve over the Gaussian rationals -/
+
+/-- complex conjugation (`zz_conj`, the `HasConj` instance of `Cx`) is a ring homomorphism of the
+Gaussian rationals -/
+def conjHom : Cx Rat →+* Cx Rat where
+  toFun := HasConj.conj
+  map_one' := by apply Cx.ext' <;> simp [HasConj.conj, Cx.conj, Cx.one_def]
+  map_mul' a b := by
+    apply Cx.ext'
+    · simp [HasConj.conj, Cx.conj, Cx.mul_def]
+    · simp [HasConj.conj, Cx.conj, Cx.mul_def]; ring
+  map_zero' := by apply Cx.ext' <;> simp [HasConj.conj, Cx.conj, Cx.zero_def]
+  map_add' a b := by
+    apply Cx.ext'
+    · simp [HasConj.conj, Cx.conj, Cx.add_def]
+    · simp [HasConj.conj, Cx.conj, Cx.add_def]; ring
+
+theorem conjHom_apply (z : Cx Rat) : conjHom z = HasConj.conj z := rfl
+
+/-- **C01 (CONJ).** the solve with `f = conj` returns a solution of `Aᴴ x = b`:
+`Σ_i conj(A(i,c)) * x_i = b_c` for every column `c` of A (column `permC[c]` of the factored matrix) -/
+theorem gstrsT_solves_conj (P : Params (Cx Rat) Rat) (st : St (Cx Rat)) (hsq : P.m = P.n) (inv : Inv P st P.n)
+    (permC : Array Nat)
+    (hperm : ((List.range P.n).map fun c => permC.getD c 0).Perm (List.range P.n))
+    (b : Vec (Cx Rat)) (c : Nat) (hc : c < P.n) :
+    ∑ i ∈ range P.m, HasConj.conj ((P.col (permC.getD c 0)).get i) *
+        (gstrsT HasConj.conj st.piv st.L st.U permC b).get i = b.get c :=
+  gstrsT_solves conjHom P st hsq inv permC hperm b c hc
 
 /-! non-vacuity: the 3x3 example of C02 (row interchange in the first column) solved for one
 right-hand side: A x = b holds exactly -/
 example : (gssvGlue exP #[0, 1, 2] [#[3, 8, 7]]).1 = 0 := by decide +kernel
 example : (gssvGlue exP #[0, 1, 2] [#[3, 8, 7]]).2 = [#[1, 1, 1]] := by decide +kernel
+
+/-! non-vacuity (row storage): A = [[2, 1], [4, 3]] stored by rows, column order `permC = [1, 0]`, so the
+factored matrix `Aᵀ*Pc` has columns (row 1 of A, row 0 of A); b = A * (1, 2)ᵀ = (4, 10)ᵀ.  The
+hypotheses of `gssv_solves_row_storage` hold, the driver reports success and returns (1, 2)ᵀ; the
+non-transposed solve on the same arrays returns something else (the orientation matters). -/
+def exNR : Params Rat Rat :=
+  { m := 2, n := 2, col := fun j => if j = 0 then #[4, 3] else #[2, 1], u := 1, order := fun _ => [0, 1],
+    oldPiv := fun _ => 0, diagRow := fun j => j }
+
+theorem exNR_legal : Legal exNR :=
+  ⟨by decide, by decide, by intro j; by_cases h : j = 0 <;> simp [exNR, h]⟩
+
+example : ((List.range exNR.n).map fun c => (#[1, 0] : Array Nat).getD c 0).Perm (List.range exNR.n) := by decide
+example : (gssvGlueNR exNR #[1, 0] [#[4, 10]]).1 = 0 := by decide +kernel
+example : (gssvGlueNR exNR #[1, 0] [#[4, 10]]).2 = [#[1, 2]] := by decide +kernel
+example : (gssvGlue exNR #[1, 0] [#[4, 10]]).2 ≠ [#[1, 2]] := by decide +kernel
+example := gssv_solves_row_storage magLaws_rat exNR exNR_legal rfl #[1, 0] (by decide) [#[4, 10]] (by decide +kernel)
+
+/-! non-vacuity (CONJ): the factored matrix has columns (1+i, i) and (2, 1-i); with x = (1, i)ᵀ,
+`Aᴴ x = (2-i, 1+i)ᵀ`.  The conjugated solve recovers x, the plain transposed solve does not. -/
+def exCx : Params (Cx Rat) Rat :=
+  { m := 2, n := 2, col := fun j => if j = 0 then #[⟨1, 1⟩, ⟨0, 1⟩] else #[⟨2, 0⟩, ⟨1, -1⟩], u := 1,
+    order := fun _ => [0, 1], oldPiv := fun _ => 0, diagRow := fun j => j }
+
+example : (luFactor exCx false).info = 0 := by decide +kernel
+example : (let st := luFactor exCx false
+    gstrsT HasConj.conj st.piv st.L st.U #[0, 1] #[⟨2, -1⟩, ⟨1, 1⟩]) = #[⟨1, 0⟩, ⟨0, 1⟩] := by decide +kernel
+example : (let st := luFactor exCx false
+    gstrsT id st.piv st.L st.U #[0, 1] #[⟨2, -1⟩, ⟨1, 1⟩]) ≠ #[⟨1, 0⟩, ⟨0, 1⟩] := by decide +kernel
 
 end Slu.LU
